@@ -190,6 +190,20 @@ class Row:
     pass
 
 
+class MaskV:
+    """numpy boolean mask  <1-D array> <op> <scalar>  kept symbolic: cond(j) is the truth value at position j."""
+
+    def __init__(self, seq, pred):
+        self.seq, self.pred, self.n = seq, pred, seq.n
+
+    def cond(self, j):
+        return self.pred(self.seq.at(j))
+
+    def cond_abs(self, i):
+        raw = self.seq.arr[i]
+        return self.pred(raw if self.seq.delta == 0 else add(raw, self.seq.delta))
+
+
 class Obj:
     """record of fields (LocalBioFilter / abstract filter / Monitor)."""
 
